@@ -161,8 +161,11 @@ def run(plan):
             res.fail(f"get_capabilities raised {o.exc_type}", repr(o.exc))
             return
         changed = set()
+        stale = None        # a late duplicate of a property report that the object has not consumed yet
         for op in plan["ops"]:
             kind = op["op"]
+            if stale is not None and stale.get("gone"):
+                stale = None
             if kind == "set":
                 attr, val = op["attr"], op["value"]
                 s.set_attr(ac, attr, val)
@@ -199,6 +202,8 @@ def run(plan):
                     res.fail(f"get_capabilities raised {o.exc_type}", repr(o.exc))
                     return
                 w.fire("setter_called_between_two_capability_pages")
+                if stale is not None and w.loop.time() >= stale["at"]:
+                    stale = None
             elif kind == "beep":
                 ac.beep = op["value"]
             elif kind == "dev_store":
@@ -268,6 +273,13 @@ def run(plan):
                                  f"sent {[hex(i) for i in ids]} expected {[hex(i) for i in sorted(want)]}")
                         return
                     for pid, v in got:
+                        if bytes(v) != want[pid] and stale is not None and w.loop.time() >= stale["at"] \
+                                and pid in stale["props"] and bytes(v) == stale["props"][pid]:
+                            # the late duplicate of an older report was waiting in the connection and was processed
+                            # by this apply's state exchange before the write was built: the object showed the
+                            # reported value again at that moment, and that is the value it sent (correctly encoded)
+                            w.fire("late_duplicate_report_processed_before_the_write_was_built")
+                            continue
                         if bytes(v) != want[pid]:
                             res.fail(f"property 0x{pid:04x} value encoding differs from the vendor encoding",
                                      f"sent {bytes(v).hex()} expected {want[pid].hex()}")
@@ -276,6 +288,8 @@ def run(plan):
                         did["set_apply"] += 1
                 if kind == "apply":
                     changed.clear()
+                if stale is not None and w.loop.time() >= stale["at"]:
+                    stale["gone"] = True
                 if dev.violations:
                     res.fail("device-side strict parser rejected a command: " + dev.violations[0][1], "")
                     return
@@ -293,6 +307,8 @@ def run(plan):
                         res.fail(f"refresh raised {o.exc_type}", repr(o.exc))
                         return
                     w.fire("property_query_unanswered")
+                    if stale is not None and w.loop.time() >= stale["at"]:
+                        stale = None
                     continue
                 if op.get("dup_props_late") and supported_ids(p):
                     # the device re-sends its property report a few seconds later (a late duplicate)
@@ -301,6 +317,11 @@ def run(plan):
                 if o.kind != "ok":
                     res.fail(f"refresh raised {o.exc_type}", repr(o.exc))
                     return
+                if stale is not None and w.loop.time() >= stale["at"]:
+                    stale = None
+                if rop.get("net"):
+                    stale = {"at": w.loop.time() + op["dup_props_late"],
+                             "props": {pid: bytes(M.prop_store_value_for_read(pid, dev.props)) for pid in supported_ids(p)}}
                 did["refresh"] += 1
                 exp = store_view(p, dev.props)
                 for attr, v in exp.items():
